@@ -12,3 +12,9 @@ let desc = { fresh = ctp_fresh; decode = ctp_decode_into; serialize = None; fiel
   next = (fun _ _ -> "none"); render_panics = ctp_render_panics; of_spec = (fun _ -> failwith "no spec"); junk_len = 0 }
 let run id ops out = run_generic desc id ops out
 let registered = Registry.register "Lctp" run
+let coq_ctpl = function
+  | CtpTop (skip, c, p) -> Printf.sprintf "(CtpTop %s %s %s)" (coq_z skip) (coq_zlist c) (coq_zlist p)
+  | CtpFwd (fn, addr, c, p) -> Printf.sprintf "(CtpFwd %s %s %s %s)" (coq_z fn) (coq_zlist addr) (coq_zlist c) (coq_zlist p)
+  | CtpReply (fn, rn, dd, c) -> Printf.sprintf "(CtpReply %s %s %s %s)" (coq_z fn) (coq_z rn) (coq_zlist dd) (coq_zlist c)
+let registered_coq = Registry.register_coq "Lctp" ("From GP Require Import Base LctpModel.\n",
+  Lsmallutil.to_coq_generic { Lsmallutil.cd = desc; coq_layer = coq_list coq_ctpl; g_dec = "ctp_decode_into"; g_fresh = "ctp_fresh"; g_ser = ""; g_rp = "ctp_render_panics" })
